@@ -778,6 +778,140 @@ Section Proofs.
   Proof.
     apply history_transparent. unfold excluded. apply parametric_not_excluded; [assumption|]. intros t a [].
   Qed.
+
+  (* ---------- object identity: cached workflows never alias the user's task objects ---------- *)
+  Notation idsT := (ids HT HD).
+  Notation iconstruct' := (iconstruct V T HT HD hash_type hash_dict).
+  Notation istep' := (istep V T G R HT HD HC ht_eqb hd_eqb hc_eqb hash_type hash_dict checksum type_name ctor).
+  Notation irun' := (irun V T G R HT HD HC ht_eqb hd_eqb hc_eqb hash_type hash_dict checksum type_name fields
+                          default ctor subst eval).
+
+  Definition ids_ok (i : idsT) : Prop :=
+    (forall n, In n (iuser HT HD i) -> n < inext HT HD i) /\
+    (forall n, In n (cache_ids HT HD i) -> n < inext HT HD i) /\
+    (forall n, In n (iuser HT HD i) -> ~ In n (cache_ids HT HD i)).
+
+  Lemma ifind_In ic th keys vh n :
+    ifind HT HD ht_eqb hd_eqb ic th keys vh = Some n -> In n (map snd ic).
+  Proof.
+    induction ic as [|[[[th' ks] vh'] m] r IH]; cbn; [discriminate|].
+    destruct (ht_eqb th th' && keys_eqb keys ks && hd_eqb vh vh').
+    - intros H. inversion H. now left.
+    - intros H. right. now apply IH.
+  Qed.
+
+  Definition obs_ok (o : idobs) : Prop :=
+    (forall n, id_ret o = Some n -> ~ In n (id_user o)) /\
+    (forall n, id_written o = Some n -> ~ In n (id_cached o)).
+
+  Lemma iconstruct_ok i t attrs lazy dc h j n :
+    ids_ok i -> iconstruct V T HT HD ht_eqb hd_eqb hash_type hash_dict i t attrs lazy dc h = (j, n) ->
+    ids_ok j /\ ~ In n (iuser HT HD j).
+  Proof.
+    intros (Hu & Hc & Hd) H. unfold iconstruct in H. destruct h.
+    - (* exact hit: the cached object *)
+      inversion H; subst j. clear H. split; [now repeat split|].
+      destruct (ifind HT HD ht_eqb hd_eqb (icache HT HD i) (hash_type t) (map fst (nlv attrs lazy))
+                  (hash_dict (nlv attrs lazy))) as [m|] eqn:E.
+      + subst n. apply ifind_In in E. intros Hi. exact (Hd _ Hi E).
+      + subst n. intros Hi. apply Hu in Hi. lia.
+    - (* superset hit: a deep copy *)
+      inversion H; subst j n. clear H. cbn. split.
+      + repeat split; cbn; intros m Hm; [apply Hu in Hm; lia | apply Hc in Hm; lia | now apply Hd].
+      + intros Hi. apply Hu in Hi. lia.
+    - (* miss: copy(task) *)
+      inversion H; subst j n. clear H. cbn. split.
+      + unfold ids_ok, cache_ids. cbn. destruct dc; repeat split; intros m Hm.
+        * apply Hu in Hm; lia.
+        * apply Hc in Hm; lia.
+        * now apply Hd.
+        * apply Hu in Hm; lia.
+        * rewrite map_app in Hm. apply in_app_or in Hm. destruct Hm as [Hm|[Hm|[]]]; [apply Hc in Hm; lia | cbn in Hm; lia].
+        * rewrite map_app. intros Hi. apply in_app_or in Hi. destruct Hi as [Hi|[Hi|[]]]; [exact (Hd _ Hm Hi)|].
+          cbn in Hi. apply Hu in Hm. lia.
+      + intros Hi. apply Hu in Hi. lia.
+  Qed.
+
+  Lemma alloc_user_ok i : ids_ok i -> ids_ok (alloc_user HT HD i).
+  Proof.
+    intros (Hu & Hc & Hd). unfold ids_ok, alloc_user, cache_ids. cbn. repeat split; intros m Hm.
+    - apply in_app_or in Hm. destruct Hm as [Hm|[Hm|[]]]; [apply Hu in Hm; lia | lia].
+    - apply Hc in Hm. lia.
+    - apply in_app_or in Hm. destruct Hm as [Hm|[Hm|[]]]; [now apply Hd|].
+      subst m. intros Hi. apply Hc in Hi. lia.
+  Qed.
+
+  Lemma quiet_ok u c : obs_ok {| id_ret := None; id_written := None; id_user := u; id_cached := c |}.
+  Proof. split; intros n H; discriminate. Qed.
+
+  Lemma filter_ids_sub (ic : list (HT * list fname * HD * nat)) p n :
+    In n (map snd (filter p ic)) -> In n (map snd ic).
+  Proof.
+    intros H. apply in_map_iff in H. destruct H as (e & He & Hi). apply filter_In in Hi.
+    apply in_map_iff. exists e. tauto.
+  Qed.
+
+  Lemma istep_ok s i o j ob :
+    ids_ok i -> istep' s i o = (j, ob) -> ids_ok j /\ obs_ok ob.
+  Proof.
+    intros Hok H. unfold istep in H.
+    destruct o as [t given|k f a|k|k ch|k|k lazy dc|k nr|[t|]].
+    - inversion H; subst. split; [now apply alloc_user_ok | apply quiet_ok].
+    - destruct (nth_error _ k) as [ob0|]; [|inversion H; subst; split; [assumption|apply quiet_ok]].
+      destruct (mem f _); [|inversion H; subst; split; [assumption|apply quiet_ok]].
+      inversion H; subst. split; [assumption|]. split; cbn; intros n Hn; [discriminate|].
+      destruct Hok as (_ & _ & Hd). apply Hd. eapply nth_error_In; eassumption.
+    - destruct (nth_error _ k); inversion H; subst; (split; [|apply quiet_ok]);
+        [now apply alloc_user_ok | assumption].
+    - destruct (nth_error _ k); inversion H; subst; (split; [|apply quiet_ok]);
+        [now apply alloc_user_ok | assumption].
+    - destruct (nth_error _ k) as [ob0|]; [|inversion H; subst; split; [assumption|apply quiet_ok]].
+      destruct (construct' _ _ _ _ _) as [[c w] h].
+      destruct (iconstruct V T HT HD ht_eqb hd_eqb hash_type hash_dict i _ _ _ _ h) as [j' n] eqn:Ei.
+      inversion H; subst. destruct (iconstruct_ok _ _ _ _ _ _ _ _ Hok Ei) as [Hj Hn].
+      split; [assumption|]. split; cbn; intros m Hm; [inversion Hm; now subst | discriminate].
+    - destruct (nth_error _ k) as [ob0|]; [|inversion H; subst; split; [assumption|apply quiet_ok]].
+      destruct (construct' _ _ _ _ _) as [[c w] h].
+      destruct (iconstruct V T HT HD ht_eqb hd_eqb hash_type hash_dict i _ _ _ _ h) as [j' n] eqn:Ei.
+      inversion H; subst. destruct (iconstruct_ok _ _ _ _ _ _ _ _ Hok Ei) as [Hj Hn].
+      split; [assumption|]. split; cbn; intros m Hm; [inversion Hm; now subst | discriminate].
+    - destruct (nth_error _ k) as [ob0|]; [|inversion H; subst; split; [assumption|apply quiet_ok]].
+      destruct (all_vals V _) as [vals|]; [|inversion H; subst; split; [assumption|apply quiet_ok]].
+      destruct (if nr then None else find_h hc_eqb _ _); [inversion H; subst; split; [assumption|apply quiet_ok]|].
+      destruct (construct' _ _ _ _ _) as [[c w] h].
+      destruct (iconstruct V T HT HD ht_eqb hd_eqb hash_type hash_dict i _ _ _ _ h) as [j' n] eqn:Ei.
+      cbn in H. inversion H; subst. destruct (iconstruct_ok _ _ _ _ _ _ _ _ Hok Ei) as [Hj Hn].
+      split; [assumption | apply quiet_ok].
+    - inversion H; subst. destruct Hok as (Hu & Hc & Hd).
+      assert (Hok' : ids_ok {| inext := inext HT HD i; iuser := iuser HT HD i;
+                               icache := filter (fun e => negb (ht_eqb (hash_type t) (fst (fst (fst e))))) (icache HT HD i) |}).
+      { unfold ids_ok, cache_ids. cbn. repeat split; intros m Hm.
+        - now apply Hu.
+        - apply Hc. eapply filter_ids_sub; eassumption.
+        - intros Hi. apply (Hd _ Hm). eapply filter_ids_sub; eassumption. }
+      split; [assumption | apply quiet_ok].
+    - inversion H; subst. destruct Hok as (Hu & Hc & Hd).
+      assert (Hok' : ids_ok {| inext := inext HT HD i; iuser := iuser HT HD i; icache := [] |}).
+      { unfold ids_ok, cache_ids. cbn. repeat split; intros m Hm; [now apply Hu | destruct Hm | intros []]. }
+      split; [assumption | apply quiet_ok].
+  Qed.
+
+  (* in every history: the inputs object of a returned workflow is never one of the user's task objects,
+     and a setattr never writes to an object held by the cache *)
+  Theorem no_alias ops : forall s i, ids_ok i -> Forall obs_ok (irun' s i ops).
+  Proof.
+    induction ops as [|o r IH]; intros s i Hok; cbn; [constructor|].
+    destruct (istep' s i o) as [j ob] eqn:E. destruct (istep_ok _ _ _ _ _ Hok E) as [Hj Hob].
+    constructor; [assumption | now apply IH].
+  Qed.
+
+  Lemma ids0_ok : ids_ok (ids0 HT HD).
+  Proof. unfold ids_ok, cache_ids. cbn. repeat split; intros n []. Qed.
+
+  Theorem history_no_alias ops :
+    Forall obs_ok (id_history V T G R HT HD HC ht_eqb hd_eqb hc_eqb hash_type hash_dict checksum type_name fields
+                              default ctor subst eval ops).
+  Proof. apply no_alias. apply ids0_ok. Qed.
 End Proofs.
 
 (* ------------------------------------------------------------------------------------------
